@@ -850,3 +850,18 @@ pub assume_specification<T, U, D, F>[ core::option::Option::<T>::map_or_else ](o
     ensures o is None ==> d.ensures((), r), o is Some ==> f.ensures((o->0,), r),
 ;
 // @end
+
+// @section reader_exact
+impl AseReader {
+    /// AseReader::read_exact(&mut [u8]) (std::io::Read::read_exact on the cursor; the call site passes `&mut Vec<u8>`):
+    /// fills the whole buffer with the next bytes or fails; same ASSUMED reader contract as the primitives
+    #[verifier::external_body]
+    pub fn read_exact(&mut self, buf: &mut Vec<u8>) -> (r: Result<()>)
+        ensures final(self).data() == old(self).data(), 0 <= old(self).pos() <= old(self).data().len(),
+            final(buf)@.len() == old(buf)@.len(),
+            r is Ok <==> old(self).pos() + old(buf)@.len() <= old(self).data().len(),
+            r is Ok ==> final(buf)@ == old(self).data().subrange(old(self).pos(), old(self).pos() + old(buf)@.len())
+                && final(self).pos() == old(self).pos() + old(buf)@.len(),
+    { unimplemented!() }
+}
+// @end
